@@ -9,7 +9,10 @@ import json, os, re, shutil, subprocess, sys, time, signal
 VERIF = os.path.dirname(os.path.dirname(os.path.abspath(__file__)))
 REPO = "/repo"
 SPEC = os.path.join(VERIF, "spec")
-HARNESS = os.path.join(VERIF, "harness")
+# Sensitivity experiments only (never set by a registered command): a scratch copy of the harness whose path dependencies
+# point at a scratch worktree carrying a seeded change, and a scratch directory for the evidence / replay files of that run.
+HARNESS = os.environ.get("VERIF_SCRATCH_HARNESS") or os.path.join(VERIF, "harness")
+OUTDIR = os.environ.get("VERIF_SCRATCH_OUT") or VERIF
 JAVA_CP = "/opt/veriftools/tla/tla2tools.jar:/opt/veriftools/tla/CommunityModules-deps.jar"
 NCPU = os.cpu_count() or 4
 
@@ -25,7 +28,7 @@ def log(*a):
 # --------------------------------------------------------------------------- work dir
 class Work:
     def __init__(self, prop):
-        self.dir = os.path.join(VERIF, ".work", "%s-%d" % (prop, os.getpid()))
+        self.dir = os.path.join(OUTDIR, ".work", "%s-%d" % (prop, os.getpid()))
         shutil.rmtree(self.dir, ignore_errors=True)
         os.makedirs(self.dir)
 
@@ -404,8 +407,8 @@ class Evidence:
             "violations": violations,
         }
         d["coverage"].update(self.extra)
-        os.makedirs(os.path.join(VERIF, "evidence"), exist_ok=True)
-        with open(os.path.join(VERIF, "evidence", self.prop + ".json"), "w") as f:
+        os.makedirs(os.path.join(OUTDIR, "evidence"), exist_ok=True)
+        with open(os.path.join(OUTDIR, "evidence", self.prop + ".json"), "w") as f:
             json.dump(d, f, indent=1)
 
 
@@ -478,10 +481,10 @@ def finish(prop, ev, rejects, work, triage=True):
             hits.setdefault(dev, []).append(r)
         else:
             violations.append(r)
-    os.makedirs(os.path.join(VERIF, "replays"), exist_ok=True)
-    for old in os.listdir(os.path.join(VERIF, "replays")):
+    os.makedirs(os.path.join(OUTDIR, "replays"), exist_ok=True)
+    for old in os.listdir(os.path.join(OUTDIR, "replays")):
         if old.startswith("%s-%s-" % (prop, ev.tier)):
-            os.remove(os.path.join(VERIF, "replays", old))
+            os.remove(os.path.join(OUTDIR, "replays", old))
     for dev, rs in sorted(hits.items()):
         k = by_dev[dev]
         print("KNOWN-FINDING: property=%s %s [%s] (%d record(s) this run; e.g. %s)"
@@ -490,7 +493,7 @@ def finish(prop, ev, rejects, work, triage=True):
     seen = 0
     for r in violations[:20]:
         seen += 1
-        path = os.path.join(VERIF, "replays", "%s-%s-%d.json" % (prop, ev.tier, seen))
+        path = os.path.join(OUTDIR, "replays", "%s-%s-%d.json" % (prop, ev.tier, seen))
         with open(path, "w") as f:
             json.dump({"property": prop, "tier": ev.tier, "seed": ev.seed, "record": r["rec"],
                        "spec_expected": r.get("exp"), "explained_by": r.get("expl")}, f, indent=1)
